@@ -1168,11 +1168,15 @@ class WeightVectorMonitor:
                                 moves=list(out["moves"]))
             intf = [float(x) for x in out["interfaces"]]
             moves = list(out["mc_moves"])
+            # the CONFIGURED cap, not the copy that travels with the job
+            cap = out.get("cap")
+            if getattr(rig, "state", None) is not None:
+                cap = rig.state.config["simulation"]["tis_set"].get(
+                    "interface_cap")
             if e < 0:
                 want = (1.0,)
             else:
-                want = wfseg.weight_vector(orders, intf, moves,
-                                           out.get("cap"))
+                want = wfseg.weight_vector(orders, intf, moves, cap)
             got = None if new.weights is None else \
                 tuple(float(x) for x in new.weights)
             rig.reach("acc_weight_vector")
@@ -1183,7 +1187,8 @@ class WeightVectorMonitor:
                             f"{e}: run_md weights {got}, oracle on the "
                             f"path's frames {tuple(want)}",
                             orders=orders[:80], interfaces=intf,
-                            mc_moves=moves, cap=out.get("cap"))
+                            mc_moves=moves, cap=cap,
+                            cap_in_job=out.get("cap"))
 
 
 # --------------------------------------------------------------------------
